@@ -29,6 +29,7 @@ CHECKS['C12'] = checks.check_C12
 CHECKS['C16'] = checks.check_C16
 CHECKS['C11'] = checks.check_C11
 CHECKS['C17'] = checks.check_C17
+CHECKS['C20'] = checks.check_C20
 from . import analysis_check  # noqa: E402
 CHECKS['C18'] = analysis_check.check_C18
 from . import values_check  # noqa: E402
